@@ -30,6 +30,9 @@ structure Slate (V : Type) where
   baseCols : List Nat
   /-- variant x name x period -/
   variants : List (List (List (Option V)))
+  /-- `min_max_shift` of the invariant: (−number of initial periods, number of terminal periods) -/
+  minShift : Int := 0
+  maxShift : Int := 0
   deriving Repr, DecidableEq
 
 section
@@ -109,7 +112,7 @@ def fromDatabox (db : Box (Ser V) V) (names : Option (List String)) (f : BFreq) 
   let names := names.getD (keys db)
   let vs ← (List.range numVariants).mapM
     (fromDataboxVariant db names f start len fallbacks overwrites clip baseCols)
-  pure ⟨names, f, start, len, baseCols, vs⟩
+  pure { names := names, freq := f, start := start, len := len, baseCols := baseCols, variants := vs }
 
 /-- `_get_extended_span`: the periods a slatable with the given maximum lag (≤ 0) and lead (≥ 0) needs around a
 base span, and the positions of the base periods in it -/
@@ -134,6 +137,54 @@ def toDatabox (sl : Slate V) (trim : Bool) : R (List (String × Ser V)) :=
       let s : Ser V := ⟨sl.freq, sl.start, sl.variants.length, rowsOf sl.len cols, ""⟩
       (qn.2, if trim then s.trim else s))
     pure (dictOfList items)
+
+/-! ### Operations on the periods of an existing dataslate (`Dataslate.remove_periods_from_start` …, with the
+bookkeeping of `Invariant` and `Variant`) -/
+
+/-- the periods the base columns point at -/
+def Slate.basePeriods (sl : Slate V) : List Int := sl.baseCols.map (fun (i : Nat) => sl.start + (i : Int))
+
+/-- `remove_periods_from_start(n)`: the first `n` periods and data columns go; base columns inside the removed part go,
+the others shift by `n` -/
+def Slate.removeFromStart (sl : Slate V) (n : Nat) : Slate V :=
+  { sl with
+    start := sl.start + (n : Int), len := sl.len - n,
+    baseCols := (sl.baseCols.filter (fun i => n ≤ i)).map (fun i => i - n),
+    variants := sl.variants.map (fun v => v.map (fun r => r.drop n)) }
+
+/-- `remove_periods_from_end(n)` -/
+def Slate.removeFromEnd (sl : Slate V) (n : Nat) : Slate V :=
+  { sl with
+    len := sl.len - n,
+    baseCols := sl.baseCols.filter (fun i => i < sl.len - n),
+    variants := sl.variants.map (fun v => v.map (fun r => r.take (r.length - n))) }
+
+/-- `add_periods_to_end(n)`: `n` further periods with NaN data (as repaired: the code at the pinned commit repeats the
+last period, see notes/C19.md) -/
+def Slate.addToEnd (sl : Slate V) (n : Nat) : Slate V :=
+  { sl with
+    len := sl.len + n,
+    variants := sl.variants.map (fun v => v.map (fun r => r ++ List.replicate n none)) }
+
+/-- `remove_initial()` / `remove_terminal()`: by the recorded shifts (which the code does not update afterwards) -/
+def Slate.removeInitial (sl : Slate V) : R (Slate V) :=
+  if 0 < sl.minShift then throw .badInput else pure (sl.removeFromStart (-sl.minShift).toNat)
+
+def Slate.removeTerminal (sl : Slate V) : R (Slate V) :=
+  if sl.maxShift < 0 then throw .badInput else pure (sl.removeFromEnd sl.maxShift.toNat)
+
+/-- `to_databox(span="base", trim=…)`: the contiguous slice from the first to the last base column -/
+def toDataboxBase (sl : Slate V) (trim : Bool) : R (List (String × Ser V)) :=
+  match sl.baseCols.head?, sl.baseCols.getLast? with
+  | some b0, some b1 =>
+    if sl.variants.isEmpty then throw .badInput
+    else
+      let items := (List.range sl.names.length).zip sl.names |>.map (fun (qn : Nat × String) =>
+        let cols := sl.variants.map (fun v => (((v[qn.1]?).getD []).drop b0).take (b1 + 1 - b0))
+        let s : Ser V := ⟨sl.freq, sl.start + (b0 : Int), sl.variants.length, rowsOf (b1 + 1 - b0) cols, ""⟩
+        (qn.2, if trim then s.trim else s))
+      pure (dictOfList items)
+  | _, _ => throw .badInput                               -- `base_columns[0]`: IndexError
 
 end
 
